@@ -131,6 +131,7 @@ class Facts:
                 # Into::into -> From::from
                 if c["def"].endswith("convert::Into::into") and len(c.get("args", [])) == 2:
                     out.append(("<%s as From<%s>>::from" % (c["args"][1], c["args"][0]), t))
+                    out.append(("<%s as std::convert::From<%s>>::from" % (c["args"][1], c["args"][0]), t))
             for a in t["args"]:
                 if a["k"] == "const" and "fn" in a:
                     out.append((a["fn"], None))
